@@ -12,7 +12,7 @@ from __future__ import annotations
 import base64
 import json
 
-from .. import endpoint, gen, tlc
+from .. import endpoint, gen, mediatype, tlc
 from ..common import rmtree, scratch
 
 PARSED_VALUE = {"model": {"v": 1}, "text": "hello", "none": None, "list": [{"v": 1}, {"v": 2}], "int": 5, "t0int": None, "const": "accepted", "ndjson": '{"a": 1}\n{"a": 2}\n', "file": base64.b64encode(b"\x00\x01bytes").decode()}
@@ -220,6 +220,9 @@ def run(rep) -> None:
         rep.traces += len(trace)
         rep.extra["trace_E4_failures_by_TLC"] = len(post[0]["e4"])
         rep.extra["operations"] = len(oplist)
+        # MediaType.tla: the class of every response media type (type x subtype x parameter x capitals x override): JSON iff application/json or a
+        # +json suffix, text iff text/*, bytes iff application/octet-stream, anything else reported (M1, M2)
+        mediatype.judge(rep, "C04", d)
         rep.sample({"op_responses": cases[11]["op"]["rs"], "served": cases[11]["served"], "raise": cases[11]["raise"], "variant": cases[11]["variant"], "model": cases[11]["result"]})
     finally:
         rmtree(d)
